@@ -12,6 +12,8 @@ def run(tier):
                        "photons, for BOTH back-ends; TLC computes the exact loss-marginalised distribution (invariants DistNorm: non-negative, sums "
                        "to one; SlosEqualsPermanent: the SLOS layer-by-layer transition system equals the permanent formula), the real distributions are compared entry by entry and with each other. non-trivial = at least one construction "
                        "call before the read; distinct = distinct call sequences", nsim=1200)
+    cc.trace_phase(chk, PID, "wiring_float_reads", 1600 if tier == "thorough" else 240, "wiring", MINE, numeric=False, reads={"sdist"})
+    cc.trace_phase(chk, PID, "components_float_reads", 1600 if tier == "thorough" else 160, "components", MINE, numeric=False, reads={"sdist"})
     return chk.finish()
 
 
